@@ -28,7 +28,7 @@ DenyCand  == {[p |-> 1, len |-> 2, single |-> FALSE], [p |-> 5, len |-> 3, singl
 
 Peers == Hosts \cup {99}          \* 99 = an address string that does not parse
 Forged == {"absent", "h0", "h5", "h7", "junk"}    \* client-supplied X-Forwarded-For / X-Real-IP
-Families == {"v4", "v6", "mapped"}
+Families == {"v4", "v6", "mapped", "mappedlist"}   \* mappedlist: IPv4 peer, list entries written in IPv4-mapped notation
 Malformed == {"none", "allow", "deny"}
 \* spelling of the malformed entry: out-of-range address, blank, blanks only, a host name, a prefix length out of range
 MalKinds == {"badip", "blank", "space", "hostname", "cidr_oob"}
